@@ -76,7 +76,7 @@ def dc_lines(rng, n):
 
 class Prop(object):
     id = "C04"
-    lean_modules = ["VC2.Props.C04"]
+    lean_modules = ["VC2.Props.C04", "VC2.Props.C04Pipeline"]
     status = "partial"
     rule = ("random small configurations (all 7x7 wavelet pairs, depths 0-3 x 0-2, 1-4 x 1-3 slices, fragments, 4:4:4/4:2:2/4:2:0, frames/fields, luma depths 1-16, "
             "custom and default quantisation matrices) in lossless mode, and lossy mode with enough picture bytes that every slice has qindex 0, with noise / all-max / all-min / "
